@@ -275,11 +275,17 @@ class MerchantEngine:
                     depth = 0
                     braces = 0
                     quote = None
+                    escaped = False
                     current = []
-                    for i, char in enumerate(value):
+                    for char in value:
                         if quote:
                             # inside a string literal of a {expression}: nothing counts until it closes
-                            if char == quote and value[i - 1] != '\\':
+                            # (a backslash takes the next character with it - also another backslash)
+                            if escaped:
+                                escaped = False
+                            elif char == '\\':
+                                escaped = True
+                            elif char == quote:
                                 quote = None
                             current.append(char)
                         elif braces and char in '"\'':
